@@ -136,6 +136,36 @@ def run(ctx):
                     ctx.violation(" ".join(p), {"why": "a script succeeding under the larger flag set must succeed identically under the smaller one",
                                                 "larger": chain[i], "smaller": chain[j], "out_larger": outs[i], "out_smaller": outs[j]})
     ctx.count("monotone-chains", nchains)
+    # 4b. the same on signature opcodes, where the encoding flags interact: every (signature shape, key shape) pairing
+    #     for OP_CHECKSIG/VERIFY/ADD and m-of-n mixtures for OP_CHECKMULTISIG/VERIFY, along chains that drop the
+    #     signature-related flags one at a time in a random order
+    sc = R.sigop_cases(rnd, 150 if quick else 3000)
+    if quick:
+        sc = [c for i, c in enumerate(sc) if i % 3 == ctx.seed % 3 or c[3].startswith("multisig")]
+    lines, spans = [], []
+    for (sv, script, stack, lab) in sc:
+        chain = R.flag_chain(rnd, R.STD, R.SIGOP_FLAGS, k=None if rnd.random() < 0.5 else 4)
+        spans.append((lab, chain, len(lines)))
+        for f in chain:
+            lines.append(R.run_line(sv, f, script, stack))
+    impl = ctx.harness_sharded(lines)
+    model = ctx.driver_sharded(lines, "model")
+    spec = ctx.driver_sharded(lines, "spec")
+    ctx.compare("sigop-chains", lines, impl, model, spec, observable=R.canon, nontrivial=R.is_nontrivial)
+    def okv(o):
+        m = re.search(r"cont=OK/(\S*)", o)
+        return m.group(1) if m else None
+    nviol = 0
+    for lab, chain, k0 in spans:
+        outs = impl[k0:k0 + len(chain)]
+        for j in range(len(chain)):
+            for i in range(j):
+                if okv(outs[i]) is not None and okv(outs[j]) != okv(outs[i]):
+                    nviol += 1
+                    if nviol <= 5:
+                        ctx.violation(lines[k0 + i], {"why": "a script succeeding under the larger flag set must succeed identically under the smaller one", "label": lab,
+                                                      "larger": chain[i], "smaller": chain[j], "out_larger": outs[i], "out_smaller": outs[j]})
+    ctx.count("sigop-monotone-chains", len(spans))
     # 5. monotonicity on whole spends (set-up included): a spend valid under a flag set is valid under every subset
     from . import c03
     sp = c03.limit_cases(random.Random(ctx.seed * 9 + 5))
